@@ -336,6 +336,267 @@ func c12InnerLoop(fd *ast.FuncDecl) *ast.ForStmt {
 	return found
 }
 
+// ---------------------------------------------------------------------------------------------- clients of the wheel
+
+// c12Deep renders a statement list with its conditions visible and function literals opened up:
+// `f(func() { body })` → "f(func {", body…, "})"; `if init; cond {` → "if init; cond {".
+func (s *source) c12Deep(list []ast.Stmt, out *[]string) {
+	for _, st := range list {
+		switch x := st.(type) {
+		case *ast.IfStmt:
+			hdr := "if "
+			if x.Init != nil {
+				hdr += s.src(x.Init) + "; "
+			}
+			*out = append(*out, hdr+s.src(x.Cond)+" {")
+			s.c12Deep(x.Body.List, out)
+			switch e := x.Else.(type) {
+			case *ast.BlockStmt:
+				*out = append(*out, "} else {")
+				s.c12Deep(e.List, out)
+				*out = append(*out, "}")
+			case *ast.IfStmt:
+				*out = append(*out, "} else")
+				s.c12Deep([]ast.Stmt{e}, out)
+			default:
+				*out = append(*out, "}")
+			}
+		case *ast.ExprStmt:
+			if call, ok := x.X.(*ast.CallExpr); ok && len(call.Args) > 0 {
+				if fl, ok := call.Args[len(call.Args)-1].(*ast.FuncLit); ok {
+					var args []string
+					for _, a := range call.Args[:len(call.Args)-1] {
+						args = append(args, s.src(a))
+					}
+					*out = append(*out, s.src(call.Fun)+"("+strings.Join(append(args, "func {"), ", "))
+					s.c12Deep(fl.Body.List, out)
+					*out = append(*out, "})")
+					continue
+				}
+			}
+			if c12Log(s.src(st)) {
+				*out = append(*out, "(log)")
+				continue
+			}
+			*out = append(*out, s.src(st))
+		case *ast.AssignStmt:
+			if c12Log(s.src(st)) {
+				*out = append(*out, "(log)")
+				continue
+			}
+			if len(x.Rhs) == 1 {
+				if call, ok := x.Rhs[0].(*ast.CallExpr); ok && len(call.Args) > 0 {
+					if fl, ok := call.Args[len(call.Args)-1].(*ast.FuncLit); ok {
+						var lhs, args []string
+						for _, l := range x.Lhs {
+							lhs = append(lhs, s.src(l))
+						}
+						for _, a := range call.Args[:len(call.Args)-1] {
+							args = append(args, s.src(a))
+						}
+						*out = append(*out, strings.Join(lhs, ", ")+" "+x.Tok.String()+" "+s.src(call.Fun)+"("+strings.Join(append(args, "func {"), ", "))
+						s.c12Deep(fl.Body.List, out)
+						*out = append(*out, "})")
+						continue
+					}
+				}
+			}
+			*out = append(*out, s.src(st))
+		case *ast.ReturnStmt:
+			*out = append(*out, s.c12Results(x))
+		case *ast.SelectStmt, *ast.ForStmt:
+			s.c12Flat([]ast.Stmt{st}, out)
+		default:
+			*out = append(*out, s.src(st))
+		}
+	}
+}
+
+func (e *emitter) c12DeepDef(s *source, rel, goName, leanName string) *ast.FuncDecl {
+	fd := s.findFunc(rel, goName)
+	if fd == nil {
+		e.errors = append(e.errors, "function "+goName+" not found in "+rel)
+		e.stringList(leanName, "MISSING: "+goName+" in "+rel, []string{"MISSING"})
+		return nil
+	}
+	var out []string
+	s.c12Deep(fd.Body.List, &out)
+	e.stringList(leanName, "statements of `"+goName+"` in "+rel, out)
+	return fd
+}
+
+// c12Log: statements that only log or report (their text is not tied).
+func c12Log(src string) bool {
+	for _, p := range []string{"logx.Error", "logx.Errorf", "stat.Report(", "msg := fmt.Sprintf("} {
+		if strings.HasPrefix(src, p) {
+			return true
+		}
+	}
+	return false
+}
+
+// c12CallsNamed collects the calls `<anything>.<name>(…)` / `<name>(…)` inside n, function literals included.
+func c12CallsNamed(n ast.Node, name string) []*ast.CallExpr {
+	var out []*ast.CallExpr
+	ast.Inspect(n, func(x ast.Node) bool {
+		if c, ok := x.(*ast.CallExpr); ok {
+			switch f := c.Fun.(type) {
+			case *ast.SelectorExpr:
+				if f.Sel.Name == name {
+					out = append(out, c)
+				}
+			case *ast.Ident:
+				if f.Name == name {
+					out = append(out, c)
+				}
+			}
+		}
+		return true
+	})
+	return out
+}
+
+// c12IntDef emits `def lean : Int` for a constant expression of file rel (time units, constants of the file).
+func (e *emitter) c12IntDef(s *source, rel, lean, doc string, x ast.Expr) {
+	v, ok := s.eval(rel, x)
+	if !ok || x == nil {
+		e.errors = append(e.errors, lean+": not a constant expression")
+		e.printf("/-- NOT CONSTANT: %s -/\ndef %s : Int := -999999999\n\n", doc, lean)
+		return
+	}
+	e.printf("/-- %s: `%s` -/\ndef %s : Int := %s\n\n", doc, s.src(x), lean, v.ExactString())
+}
+
+// c12SwitchTable translates `switch <param> { case C: return V, b … default: return V, b }` (constant cases and
+// results) into `def lean (param : Int) : Int × Bool` as an if-chain in source order.
+func (e *emitter) c12SwitchTable(s *source, rel, goName, lean string) {
+	fail := func(msg string) {
+		e.errors = append(e.errors, lean+": "+msg)
+		e.printf("/-- TRANSLATION FAILED: %s -/\ndef %s : Unit := ()\n\n", msg, lean)
+	}
+	fd := s.findFunc(rel, goName)
+	if fd == nil || len(fd.Body.List) != 1 || len(fd.Type.Params.List) != 1 || len(fd.Type.Params.List[0].Names) != 1 {
+		fail("function not found or not a single switch over its parameter")
+		return
+	}
+	param := fd.Type.Params.List[0].Names[0].Name
+	sw, ok := fd.Body.List[0].(*ast.SwitchStmt)
+	if !ok || sw.Init != nil || !c12IsIdent(sw.Tag, param) {
+		fail("body is not `switch " + param + "`")
+		return
+	}
+	result := func(body []ast.Stmt) (string, bool) {
+		if len(body) != 1 {
+			return "", false
+		}
+		r, ok := body[0].(*ast.ReturnStmt)
+		if !ok || len(r.Results) != 2 {
+			return "", false
+		}
+		v, ok := s.eval(rel, r.Results[0])
+		if !ok || (!c12IsIdent(r.Results[1], "true") && !c12IsIdent(r.Results[1], "false")) {
+			return "", false
+		}
+		return "(" + v.ExactString() + ", " + s.src(r.Results[1]) + ")", true
+	}
+	var chain []string
+	dflt := ""
+	for _, c := range sw.Body.List {
+		cc := c.(*ast.CaseClause)
+		res, ok := result(cc.Body)
+		if !ok {
+			fail("a case does not return (constant, true|false)")
+			return
+		}
+		if cc.List == nil {
+			dflt = res
+			continue
+		}
+		var conds []string
+		for _, x := range cc.List {
+			v, ok := s.eval(rel, x)
+			if !ok {
+				fail("case expression is not constant: " + s.src(x))
+				return
+			}
+			conds = append(conds, leanIdent(param)+" = "+v.ExactString())
+		}
+		chain = append(chain, "if "+strings.Join(conds, " ∨ ")+" then "+res)
+	}
+	if dflt == "" {
+		fail("no default case")
+		return
+	}
+	e.printf("/-- `%s` in %s -/\ndef %s (%s : Int) : Int × Bool :=\n  %s\n  else %s\n\n", goName, rel, lean, leanIdent(param),
+		strings.Join(chain, "\n  else "), dflt)
+}
+
+func (e *emitter) c12Clients(s *source) {
+	// core/stores/cache/cleaner.go
+	const cl = "core/stores/cache/cleaner.go"
+	e.constDef(s, cl, "timingWheelSlots", "cleanerSlots")
+	e.constDef(s, cl, "cleanWorkers", "cleanWorkers")
+	e.c12SwitchTable(s, cl, "nextDelay", "nextDelay")
+	if fd := e.c12DeepDef(s, cl, "AddCleanTask", "addCleanTaskStmts"); fd != nil {
+		calls := c12CallsNamed(fd, "SetTimer")
+		if len(calls) == 1 && len(calls[0].Args) == 3 {
+			e.c12IntDef(s, cl, "addCleanTaskTimerDelay", "delay argument of the SetTimer in AddCleanTask", calls[0].Args[2])
+			var dl ast.Expr
+			if lit, ok := calls[0].Args[1].(*ast.CompositeLit); ok {
+				for _, el := range lit.Elts {
+					if kv, ok := el.(*ast.KeyValueExpr); ok && c12IsIdent(kv.Key, "delay") {
+						dl = kv.Value
+					}
+				}
+			}
+			e.c12IntDef(s, cl, "addCleanTaskValueDelay", "delayTask.delay stored by AddCleanTask", dl)
+		} else {
+			e.errors = append(e.errors, "AddCleanTask: expected exactly one SetTimer(key, value, delay)")
+		}
+	}
+	e.c12DeepDef(s, cl, "clean", "cleanStmts")
+	if fd := e.c12DeepDef(s, cl, "init", "cleanerInitStmts"); fd != nil {
+		calls := c12CallsNamed(fd, "NewTimingWheel")
+		if len(calls) == 1 && len(calls[0].Args) == 3 {
+			e.c12IntDef(s, cl, "cleanerInterval", "interval of the cleaner's wheel", calls[0].Args[0])
+			e.c12IntDef(s, cl, "cleanerSlotsArg", "slots of the cleaner's wheel", calls[0].Args[1])
+		} else {
+			e.errors = append(e.errors, "cleaner init: expected exactly one NewTimingWheel(interval, slots, execute)")
+		}
+	}
+	// core/collection/cache.go
+	const ca = "core/collection/cache.go"
+	e.constDef(s, ca, "slots", "cacheSlots")
+	if fd := s.findFunc(ca, "NewCache"); fd != nil {
+		calls := c12CallsNamed(fd, "NewTimingWheel")
+		if len(calls) == 1 && len(calls[0].Args) == 3 {
+			e.c12IntDef(s, ca, "cacheInterval", "interval of the cache's wheel", calls[0].Args[0])
+			e.c12IntDef(s, ca, "cacheSlotsArg", "slots of the cache's wheel", calls[0].Args[1])
+			var out []string
+			if fl, ok := calls[0].Args[2].(*ast.FuncLit); ok {
+				s.c12Deep(fl.Body.List, &out)
+			}
+			e.stringList("cacheExpiryCallback", "the execute callback NewCache gives its wheel", out)
+		} else {
+			e.errors = append(e.errors, "NewCache: expected exactly one NewTimingWheel(interval, slots, execute)")
+		}
+	} else {
+		e.errors = append(e.errors, "NewCache not found")
+	}
+	e.c12DeepDef(s, ca, "Cache.Del", "cacheDelStmts")
+	e.c12DeepDef(s, ca, "Cache.Set", "cacheSetStmts")
+	e.c12DeepDef(s, ca, "Cache.SetWithExpire", "cacheSetWithExpireStmts")
+	e.c12DeepDef(s, ca, "Cache.onEvict", "cacheOnEvictStmts")
+	// core/timex/ticker.go
+	const tk = "core/timex/ticker.go"
+	e.c12DeepDef(s, tk, "NewTicker", "newTickerStmts")
+	e.c12DeepDef(s, tk, "realTicker.Chan", "realTickerChanStmts")
+	e.c12DeepDef(s, tk, "NewFakeTicker", "newFakeTickerStmts")
+	e.c12DeepDef(s, tk, "fakeTicker.Chan", "fakeTickerChanStmts")
+	e.c12DeepDef(s, tk, "fakeTicker.Stop", "fakeTickerStopStmts")
+	e.c12DeepDef(s, tk, "fakeTicker.Tick", "fakeTickerTickStmts")
+}
+
 func init() {
 	register("C12", func(s *source, e *emitter) {
 		const f = "core/collection/timingwheel.go"
@@ -386,6 +647,19 @@ func init() {
 			if loop := c12InnerLoop(fd); loop != nil {
 				e.c12Effects(t, "drainEntryEff", "one iteration of the inner loop of `drainAll`", recvOf(fd), nil, s.c12Rewrite(loop.Body.List))
 				e.stringList("drainLoopHeader", "inner loop header of `drainAll`", []string{c12Src(s, loop.Init), c12Src(s, loop.Cond), c12Src(s, loop.Post)})
+				// what drainAll does with the collected tasks, after the slots are empty (the hand-off to the workers)
+				var tail []string
+				seenRange := false
+				for _, st := range fd.Body.List {
+					if _, ok := st.(*ast.RangeStmt); ok && !seenRange {
+						seenRange = true
+						continue
+					}
+					if seenRange {
+						s.c12Deep([]ast.Stmt{st}, &tail)
+					}
+				}
+				e.stringList("drainTailStmts", "statements of `drainAll` after the loop over the slots", tail)
 			} else {
 				e.errors = append(e.errors, "drainAll: loop not found")
 			}
@@ -495,5 +769,6 @@ func init() {
 		e.shapeDef(s, f, "TimingWheel.removeTask", "removeShape")
 		e.shapeDef(s, f, "TimingWheel.setTask", "setTaskShape")
 		e.shapeDef(s, f, "TimingWheel.onTick", "onTickShape")
+		e.c12Clients(s)
 	})
 }
